@@ -88,6 +88,22 @@ func classify(m *service.Message) string {
 }
 
 // sendCmd calls SendActiveMessage in its own goroutine and waits at most limit for it to return.
+// resultSink: what a caller of SendActiveMessage typically looks at in the returned message (the command, the platform serial
+// and bytes it was sent with, the header); reading them here makes the race detector see writes that other goroutines still
+// perform on a message that has already been handed out.
+var resultSink atomic.Uint64
+
+func touchResult(m *service.Message) {
+	if m == nil {
+		return
+	}
+	v := uint64(m.ExtensionFields.PlatformSeq) + uint64(m.ExtensionFields.PlatformCommand) + uint64(len(m.ExtensionFields.PlatformData)) + uint64(len(m.ExtensionFields.TerminalData))
+	if m.JTMessage != nil && m.JTMessage.Header != nil {
+		v += uint64(m.JTMessage.Header.ReplyID) + uint64(m.JTMessage.Header.PlatformSerialNumber) + uint64(len(m.JTMessage.Body))
+	}
+	resultSink.Add(v)
+}
+
 func sendCmd(g *service.GoJT808, key string, cmd consts.JT808CommandType, body []byte, timeout, limit time.Duration) cmdResult {
 	am := service.NewActiveMessage(key, cmd, body, timeout)
 	done := make(chan *service.Message, 1)
@@ -95,6 +111,7 @@ func sendCmd(g *service.GoJT808, key string, cmd consts.JT808CommandType, body [
 	go func() { done <- g.SendActiveMessage(am) }()
 	select {
 	case m := <-done:
+		touchResult(m)
 		return cmdResult{returned: true, msg: m, dur: time.Since(t0), kind: classify(m), pseq: am.ExtensionFields.PlatformSeq}
 	case <-time.After(limit):
 		return cmdResult{kind: "stranded", dur: time.Since(t0)}
